@@ -303,6 +303,9 @@ def run_property(prop, tier):
         if u.errors():
             raise Broken("fixture unit does not compile: " + u.errors()[0]["msg"][:200])
     n_patterns = audit_coverage(fb, ctx)
+    from . import flow
+    flow.DEPTH = 2 if tier == "thorough" else 1
+    ctx.log["path_enumeration_loop_bound"] = flow.DEPTH
     mod = importlib.import_module("rules.props." + prop.lower())
     mod.run(ctx)
     return finish(ctx, mod, t0, n_patterns, units)
@@ -393,6 +396,7 @@ def finish(ctx, mod, t0, n_patterns, units):
             skipped_uninstantiable=ctx.skipped,
             notes=ctx.notes,
             extraction=ctx.log.get("extraction", {}),
+            path_enumeration_loop_bound=ctx.log.get("path_enumeration_loop_bound"),
             checker_cmd="./check %s --tier %s" % (prop, ctx.tier),
             trusted_base=["clang 14 front end and clang::CFG",
                           "semantic tables for libstdc++ lock/atomic/condition_variable/container types (rules/engine.py)",
